@@ -237,6 +237,33 @@ def _is_code_of(e: ast.AST, g: CFG, at: int, var: str) -> bool:
 
 def rule_attribution(ctx: Ctx, repo: Repo) -> None:
     """R-C02.4: every function get_func can return was selected by `its __code__ is code`."""
+    # get_func and whatever it delegates to (helpers, strategy tables, a search object): interpreted on worlds of program
+    # objects - the function under the name in globals, methods of every kind on the first argument's class, static methods
+    # of global classes, closures held by calling frames, decorator chains - each with a same-named function of ANOTHER code
+    # object placed where it is met first.  The value returned is the function whose __code__ IS the frame's code, or None
+    # where no such function can be reached.
+    from . import lookup_model as LM
+    try:
+        results = LM.attribution_results(repo)
+    except AnalysisError as e:
+        ctx.note(f"R-C02.4: the look-up is not interpretable here ({str(e)[:120]}); decided by provenance of the returned values instead")
+        results = None
+    if results is not None:
+        fns, _ = LM.lookup_closure(repo)
+        ctx.functions.update(fns)
+        n_found = 0
+        for what, want, kind, res, _t in results:
+            ok = kind == "return" and (res == want if want is not None else (isinstance(res, K) and res.v is None))
+            if want is not None and ok:
+                n_found += 1
+            got = "an exception " + str(res)[:60] if kind != "return" else ("None" if isinstance(res, K) and res.v is None else
+                                                                            (res.fields["ident"].v if hasattr(res, "fields") and "ident" in res.fields else str(res)[:60]))
+            ctx.check(ok, "R-C02.4", repo.fn(M, "get_func").fq, f"the look-up attributes a frame to the function whose code it runs: {what}",
+                      construct=f"{what}: got {got}", reason=f"expected {'the function whose __code__ is the frame code' if want is not None else 'None'}, got {got}")
+        ctx.count("R-C02.4:look-up worlds", len(results))
+        ctx.floor("R-C02.4", "worlds in which the running function is found", n_found, 10)
+        return
+    # ---- the look-up is not interpretable: the former dataflow form of the rule ----
     hc = code_selector(repo, ctx)
     g = cfg_of(hc)
     ctx.functions.add(hc.fq)
@@ -265,32 +292,6 @@ def rule_attribution(ctx: Ctx, repo: Repo) -> None:
                   construct=norm(n.ast), node=n.ast)
     ctx.floor("R-C02.4", "non-None return of _has_code", n_nonnull, 1)
 
-    # get_func and whatever it delegates to (helpers, strategy tables, a search object): interpreted on worlds of program
-    # objects - the function under the name in globals, methods of every kind on the first argument's class, static methods
-    # of global classes, closures held by calling frames, decorator chains - each with a same-named function of ANOTHER code
-    # object placed where it is met first.  The value returned is the function whose __code__ IS the frame's code, or None
-    # where no such function can be reached.
-    from . import lookup_model as LM
-    try:
-        results = LM.attribution_results(repo)
-    except AnalysisError as e:
-        ctx.note(f"R-C02.4: the look-up is not interpretable here ({str(e)[:120]}); decided by provenance of the returned values instead")
-        results = None
-    if results is not None:
-        fns, _ = LM.lookup_closure(repo)
-        ctx.functions.update(fns)
-        n_found = 0
-        for what, want, kind, res, _t in results:
-            ok = kind == "return" and (res == want if want is not None else (isinstance(res, K) and res.v is None))
-            if want is not None and ok:
-                n_found += 1
-            got = "an exception " + str(res)[:60] if kind != "return" else ("None" if isinstance(res, K) and res.v is None else
-                                                                            (res.fields["ident"].v if hasattr(res, "fields") and "ident" in res.fields else str(res)[:60]))
-            ctx.check(ok, "R-C02.4", repo.fn(M, "get_func").fq, f"the look-up attributes a frame to the function whose code it runs: {what}",
-                      construct=f"{what}: got {got}", reason=f"expected {'the function whose __code__ is the frame code' if want is not None else 'None'}, got {got}")
-        ctx.count("R-C02.4:look-up worlds", len(results))
-        ctx.floor("R-C02.4", "worlds in which the running function is found", n_found, 10)
-        return
     # get_func_in_mro / get_func (and any helper they delegate to): every returned value is None or was selected by
     # _has_code(<candidate>, <the code object in question>)
     memo: Dict[Tuple[str, str, str], Tuple[bool, str]] = {}
